@@ -41,7 +41,7 @@ type pgEvent struct {
 	Soft  bool     `json:"soft"`
 	// committed content of the server after the operation, per key of the universe (0 = absent): what a fresh handle reads
 	Durable map[string]int `json:"durable"`
-	Seq   int      `json:"seq"`
+	Seq     int            `json:"seq"`
 }
 
 func runPgSequence(ops []pgOp, seq int, out *ndw, kinds map[string]int) {
